@@ -316,7 +316,9 @@ def tokEval (line : String) : Option String := do
   -- id), the name in its extension, and the provisioners the CA serves now
   let provs ← listOf provEntry? (← look kv "pmap")
   let P : PColl := { byID := provs.map (fun p => (p.id, p)), byName := provs.map (fun p => (p.name, p)) }
-  let prov := (P.byCertificate (← origin? (← look kv "org"))).map (·.name)
+  -- the lookup the property asks for (`byCertificateStrict`); /repo falls back to the extension's name
+  -- when the recorded provisioner is gone: known finding C16-O4, lines marked gone=1
+  let prov := (P.byCertificateStrict (← origin? (← look kv "org"))).map (·.name)
   let r : AdminReq := {
     parseOk := (← bool? (← look kv "p")), chainOk := (← bool? (← look kv "c")),
     digSig := (← bool? (← look kv "d")), sigOk := (← bool? (← look kv "g")),
